@@ -18,6 +18,7 @@ import (
 	"fmt"
 	"net/url"
 	"testing"
+	"unicode/utf8"
 
 	"github.com/go-openapi/spec"
 	"pgregory.net/rapid"
@@ -78,6 +79,9 @@ func genC13(t *rapid.T) c13Case {
 // c13InDomain: the statement quantifies over URL syntax whose authority, if
 // present, is a host with at most one port (no userinfo).
 func c13InDomain(s string) bool {
+	if !utf8.ValidString(s) {
+		return false // not a string of characters: JSON cannot carry it
+	}
 	u, err := url.Parse(s)
 	if err != nil {
 		return false
